@@ -15,6 +15,18 @@ theorem byteToAsciiN_printable : ∀ v, v < 256 → ∀ c ∈ byteToAsciiN v, Pr
 
 theorem marker_printable : ∀ c ∈ marker, PrintableAscii c := by decide
 
+theorem x20NoEolLit_printable : ∀ c ∈ x20NoEolLit, PrintableAscii c := by decide
+
+/-- `guard_tailing_no_eol` only adds the characters of `\x20(no-eol)` -/
+theorem mem_guardTailingNoEol {c : Char} {e : List Char} (h : c ∈ guardTailingNoEol e) :
+    c ∈ e ∨ c ∈ x20NoEolLit := by
+  unfold guardTailingNoEol at h
+  split at h
+  · rcases List.mem_append.mp h with h | h
+    · exact Or.inl (List.mem_of_mem_take h)
+    · exact Or.inr h
+  · exact Or.inl h
+
 set_option maxRecDepth 8000 in
 theorem ofNat_printable' : ∀ v, v < 127 → 32 ≤ v → PrintableAscii (Char.ofNat v) := by decide
 
@@ -56,7 +68,9 @@ theorem ascii_printable (isOther : Char → Bool) (line : List UInt8) :
   · rename_i e he; rw [he] at hw; exact hw c hc
   · rename_i e he; rw [he] at hw
     rcases List.mem_append.mp hc with h | h
-    · exact hw c h
+    · rcases mem_guardTailingNoEol h with h | h
+      · exact hw c h
+      · exact x20NoEolLit_printable c h
     · exact marker_printable c h
 
 theorem not_other_of_printable {isOther : Char → Bool} (hC : AsciiContract isOther) {c : Char}
@@ -104,7 +118,9 @@ theorem unicode_printable (isOther : Char → Bool) (hC : AsciiContract isOther)
   · rename_i e he; rw [he] at hw; exact hw c hc
   · rename_i e he; rw [he] at hw
     rcases List.mem_append.mp hc with h | h
-    · exact hw c h
+    · rcases mem_guardTailingNoEol h with h | h
+      · exact hw c h
+      · exact not_other_of_printable hC (x20NoEolLit_printable c h)
     · exact not_other_of_printable hC (marker_printable c h)
 
 end Scrut.EscLemmas
